@@ -573,6 +573,16 @@ def auth_script(r, idx, fate_vec=None):
         cfg["incoming"] = r.choice(["retry", "validate"])
     if fam == "spoof" and r.random() < 0.5:
         cfg["migration"] = False
+    if fam == "vn" and r.random() < 0.5:
+        # a Version Negotiation packet that arrives after the client followed a Retry but before the
+        # server's first Initial: the Retry was a server packet, so the client must ignore it
+        # (round-4 mutant C04/r4m1: the guard looked at numbered packets only)
+        cfg["incoming"] = r.choice(["retry", "validate"])
+        cfg["latency_us"] = 10000
+        cfg["fates_c2s"] = ["ok"] * 4 + cfg["fates_c2s"]
+        cfg["fates_s2c"] = ["ok"] * 4 + cfg["fates_s2c"]
+        steps.append({"do": "run", "us": r.choice([21000, 25000, 32000, 38000])})
+        steps.append({"do": "vn", "to": 1, "own": r.random() < 0.3})
     steps.append(workload(r, big=r.random() < 0.2))
     for _ in range(r.choice([1, 2, 4, 6])):
         steps.append({"do": "run", "us": r.choice([0, 3000, 12000, 30000, 100000, 400000])})
